@@ -16,7 +16,7 @@ PROPS = {
     "C01": {
         "title": "Every algorithm emits a sound, gap-free, index-exact edit script",
         "module": "SimilarVerif.Props.C01",
-        "suites": ["raw", "deadline"],
+        "suites": ["raw", "deadline", "api"],
         "rule": "raw: all sequence pairs up to length 4 (thorough 5) over 3 symbols x 3 algorithms, all sub-range pairs of pairs up to length 3 (thorough 4) with slice and offset lookups, plus structured random pairs (7 families); non-trivial = at least one change and one equal item; distinct by request hash",
         "theorem_status": "LCS full (total + valid, every clock). Myers full (total + valid, every clock): Myers' middle-snake theory is formalised (furthest-reaching invariant, overlap at ceil(D/2), split point on an optimal path inside the box, not a corner) and discharges SnakeInBox/SnakeFound for every environment. Patience full (total + valid, every clock; needs the same-side comparisons of `unique` in bounds). Replay/coverage corollaries. Shift invariance full: diffing a sub-range = diffing the extracted slices with every index shifted by the range starts, all algorithms, every clock, aborts and counters included, also for arbitrary related hooks (Lemmas/Shift.lean).",
         "level_text": "Lean theorems: LCS, Myers and Patience total + valid (all inputs, in-bounds ranges, every clock; Myers' middle-snake theory formalised); replay and coverage corollaries; shift invariance of sub-range diffs. Exact call traces, comparison and probe counts of all three algorithms are compared with the model on exhaustive small scopes and random inputs, and an independent strict walker validates the implementation's streams.",
@@ -35,7 +35,7 @@ PROPS = {
     "C12": {
         "title": "Grouping keeps every change once, in order, with exactly n items of context",
         "module": "SimilarVerif.Props.C12",
-        "suites": ["group", "text"],
+        "suites": ["group", "text", "api"],
         "rule": "group: all alternating op lists with <= 2 (thorough 3) changes of the three kinds, equal-run lengths 1..2n+2, optional leading/trailing equal run, n <= 2 (thorough 4), plus random lists with run lengths around the 2n threshold; non-trivial = at least two groups",
         "theorem_status": "full: changes kept once in order, contiguity, no all-equal group, context = min(n, available) from the adjacent end, interior runs whole and <= 2n, separation iff > 2n",
         "level_text": "Lean theorems about the model of group_diff_ops for all op lists and radii; model compared with the code exhaustively on a small scope; direct re-statement validator on the implementation.",
@@ -44,7 +44,7 @@ PROPS = {
     "C13": {
         "title": "Expanding ops into changes and slices is faithful",
         "module": "SimilarVerif.Props.C13",
-        "suites": ["changes", "text"],
+        "suites": ["changes", "text", "api"],
         "rule": "changes: every op of the four kinds with offsets/lengths 0..L (quick L=5, thorough L=8) over sequences of distinct values, exhaustive, each iterator also driven through nth/skip/step_by/count/last/fold/size_hint against plain next(); text: iter_all_changes of every text diff of the text suite compared with the per-op expansions and driven the same way; non-trivial = expands to >= 2 changes; distinct by request hash",
         "theorem_status": "full: per-op expansion, slice expansion, whole-diff iteration and apply_to_hook are proved for all ops",
         "level_text": "Lean theorems for all ops: ChangesIter/AllChangesIter state machines drained = the specified lists; slices cover the same items; apply_to_hook reproduces the op. Model tied to the code by exhaustive small-scope differential testing of iter_changes/iter_slices.",
@@ -57,7 +57,7 @@ PROPS.update({
     "C02": {
         "title": "Captured ops form a valid edit script old->new",
         "module": "SimilarVerif.Props.C02",
-        "suites": ["cap", "deadline", "text"],
+        "suites": ["cap", "deadline", "text", "api"],
         "rule": "cap: capture_diff_deadline on all pairs up to length 4 (thorough 5) over 3 symbols, all sub-ranges of pairs up to 3 (thorough 4) with slice/offset lookups, structured random pairs; each case also through Compact(Replace(hook)) built by hand and with the repair switch; deadline: every expiry point; non-trivial = a change and an equal item",
         "theorem_status": "full for everything that follows from validity of the op list (application, coverage, ratio in [0,1], ratio = 1 iff no change iff element-wise equal) and for the Replace->Capture stage on any valid script; Compact stage and end-to-end factorisation of captureDiff into raw stream -> clean-up -> Replace proved (Lemmas/Capture.lean): whatever capture_diff_deadline returns is a valid alternating op list, all algorithms, every clock; identical inputs give exactly [Equal(os,ns,n)] (nothing for n = 0) for every algorithm and clock, never a panic (Lemmas/Identical.lean; Patience under EqPattern, counterexample without it recorded)",
         "level_text": "Lean theorems about any valid op list, the factorisation of the capture pipeline and its validity end to end for all three algorithms (unconditional), identical inputs give exactly one Equal op; captured op lists of the implementation compared with the model exactly (incl. comparison/probe counts) and validated by an independent walker / replayer / ratio check.",
@@ -140,7 +140,7 @@ PROPS.update({
     "C20": {
         "title": "Diffs are deterministic and depend only on the equality pattern of the items",
         "module": "SimilarVerif.Props.C20",
-        "suites": ["determinism", "text"],
+        "suites": ["determinism", "text", "api"],
         "rule": "determinism: small exhaustive and random label sequences x 3 algorithms, each run twice in the calling thread, on two long-lived and (sampled) two freshly spawned threads, with a second hash salt and with injectively relabelled values; text: str vs bytes of the same text, repeated and threaded runs; non-trivial = diff has a change",
         "theorem_status": "full at model level: injective relabelling gives the same environment hence the same result of every model function; unique/IdentifyDistinct specified without hash order; str = bytes tokens on valid UTF-8",
         "level_text": "Lean theorems about the model; threads and hasher seeds are runtime behaviour no executable model can exhibit and are covered by the harness (repeated, threaded, re-salted, relabelled runs must agree).",
@@ -152,7 +152,7 @@ PROPS.update({
     "C05": {
         "title": "Rendered unified diffs are well-formed and apply exactly",
         "module": "SimilarVerif.Props.C05",
-        "suites": ["udiff"],
+        "suites": ["udiff", "api"],
         "rule": "udiff: line diffs of all texts of up to 4 lines from {a LF, b LF, a CRLF, c CR} optionally ending in a line without terminator, random longer line texts with few edits (several hunks), bytes with invalid UTF-8 x 3 algorithms x radius 0..3 (thorough 0..4) x header on/off x Display/to_writer x str/bytes; the request carries the implementation's ops and tokens, the model renders from them; validator: strict parse + apply of the real output, header counts/starts/order, context <= radius, deletions before insertions, marker placement, writer vs Display; non-trivial = output has >= 1 hunk and context",
         "theorem_status": "structured part full under Exact (positions exact, C11): renderer total, output = structured hunks, strict application gives new, counts/positions/order, equal inputs render empty, context <= radius, deletions first, line and range formats. Byte level: a strict parser of the unified format is proved to read the printed bytes back as exactly the structured hunks (header names, all three range forms, count-driven bodies, missing-newline markers, LF/CRLF/CR terminators) and the parsed hunks patch old into new (Lemmas/UdiffParse.lean; to_writer path with hints, line tokens, names without LF). Display vs writer: display_is_lossy_writer (the Display output is exactly the lossy UTF-8 decoding of the to_writer output, every input, both hint settings) and display_eq_writer_on_utf8. The unchanged code violates the Exact hypothesis at the compaction swap (known finding): counterexample theorem included",
         "level_text": "Lean theorems about the model renderer for all valid exact op lists, radii and settings; rendered bytes of the implementation compared with the model byte for byte (Display and writer), and parsed + strictly applied by an independent validator.",
@@ -161,7 +161,7 @@ PROPS.update({
     "C14": {
         "title": "A text diff is the sequence diff of its tokens at every size and config",
         "module": "SimilarVerif.Props.C14",
-        "suites": ["text", "identify"],
+        "suites": ["text", "identify", "api"],
         "rule": "text: 5 tokenizers x str/bytes x 3 algorithms x newline override over an exhaustive small text space, random texts and near-identical texts with 95..110 tokens on one or both sides; identify: IdentifyDistinct over exhaustive small and random label sequences with offset lookups and sub-ranges; non-trivial = diff has a change and an equal",
         "theorem_status": "full at model level: textDiffOps = captureDiff on the token environment for every size; identifyDistinct total, ids equal iff items equal (all four side combinations), first-seen numbering, ranges kept",
         "level_text": "Lean theorems: the 100-token switch is invisible (the id arrays induce the same environment, by funext) and the integer mapping is a faithful first-seen numbering; TextDiff::ops compared with capture_diff_slices on the tokens by the validator and with the model on both sides of the threshold.",
@@ -170,7 +170,7 @@ PROPS.update({
     "C16": {
         "title": "Inline changes re-split each line losslessly; only changed words emphasised",
         "module": "SimilarVerif.Props.C16",
-        "suites": ["inline"],
+        "suites": ["inline", "api"],
         "rule": "inline: line diffs of text pairs sharing words (multi-byte words, mixed terminators, missing final newline) x algorithms x inline deadline none / expired / small fuel; every op of every diff through iter_inline_changes_deadline; word segmentation passed as external parameter; non-trivial = a Replace op passing both ratio gates",
         "theorem_status": "full relative to (i) the word segmenter's contract SegsOK and (ii) validity of the second-level captured ops (C02): same tags/indices as plain expansion, segments concatenate to the line, emphasised segments are non-newline runs without line breaks, missing-newline flag agrees; both outcomes of each ratio gate covered; the gates are soft-float comparisons (F32.lt .. F32.half) and gate_fires_iff characterises them exactly below 2^24 tokens (fires iff 4*matches < len)",
         "level_text": "Lean theorems for every op kind and both outcomes of both ratio gates; the implementation's inline changes are compared with the model segment by segment under the virtual clock.",
@@ -188,7 +188,7 @@ PROPS.update({
     "C18": {
         "title": "get_close_matches equals exhaustive ranking by similarity ratio",
         "module": "SimilarVerif.Props.C18",
-        "suites": ["close"],
+        "suites": ["close", "api"],
         "rule": "close: words and candidate lists (2-5 candidates incl. duplicates and the empty string) over {a,b,c,e-acute} up to length 4 x n 0..4 x cutoffs incl. values hit exactly, random longer words; thorough adds the tiny-ratio family (200000-char candidates); validator: brute-force ranking with the crate's own ratio(); non-trivial = >= 2 candidates pass",
         "theorem_status": "FULL, no hypothesis: get_close_matches_is_exhaustive_ranking — for every tokenizer, word, candidate list, n and cutoff bit pattern (NaN, negative, subnormal, infinite included) the model returns exactly the first n of all candidates whose f32 ratio is >= cutoff, sorted by ratio descending then lexicographically; the two pre-filters are invisible (prefilters_are_invisible / filters_never_discard_f32); heap-key order = IEEE order of the ratios (key_order_is_ratio_order); the f32 operations are the soft-float model F32 (n as f32, 2.0*x, correctly rounded x/y, IEEE comparisons on arbitrary patterns) whose rounding is PROVED monotone (soft_float_rounding_is_monotone discharges the former Rnd hypothesis)",
         "level_text": "Lean theorems over a soft-float model of the f32 operations (exact natural-number arithmetic, validated against hardware on 5*10^5 vectors in lean/test-f32 and re-checked against native Float32 by the driver on every request); the implementation's results are compared bit for bit on every request.",
